@@ -16,6 +16,7 @@ REPLAY_BOUNDS = {
     'order': 'VarOrder::new on every permutation of 0..4 variables, each extended 0-2 times with new_last; linear_order / force_order / min_fill_order on 202 CNFs over 1-6 variables: bijection between labels and levels',
     'compile': 'compile_cnf / collapse_clauses on 8 fixed clause lists x 6 orders and 600 seeded random CNFs; compile_logical_expr / compile_plan on 600 seeded random expressions of depth <= 4 over 3 variables; compile_cnf_with_assignments against compile-then-condition_model (same pointer) on 8 lists x 6 orders x 5 partial assignments and 600 random; BottomUpPlan::from_dtree(DTree::from_cnf) + compile_plan on 600 random CNFs; CompressionSddBuilder compile_cnf / compile_logical_expr / compile_plan under all 12 vtrees over 3 variables (8 fixed lists + 400 random CNFs and expressions) and 4 vtrees over 4 variables (100 random CNFs), evaluated by a structural walk of the SDD',
     'dtree': 'DTree::from_cnf + VTree::from_dtree on 10 fixed CNFs with independent components / unused labels and 700 seeded random CNFs over 2-6 variables (half connected through one clause over all variables, half arbitrary) with random elimination orders over 0..largest label: leaves = clauses, vars = union of children, cutset formula, vtree leaves = CNF variables',
+    'vtree': 'VTreeManager::new / var_index / vtree / lca / is_prime_index / is_prime_var / num_vars on every binary tree shape x every labelling with 1-4 leaves (dense labels 0..n-1) and every shape with 3 seeded labellings for 5 and 6 leaves (303 trees), all pairs of in-order indices, against a direct walk of the shape',
     'poly': 'Polynomial<FiniteField<U32_TINY>>: 403 pairs of polynomials with 0..33 coefficients (seeded random), + and * against the schoolbook definition',
 }
 
@@ -130,13 +131,14 @@ prop('C14',
                   'A-bitset / A-varset: BitSet insert/contains behave as a set of usize; the VarSet wrappers new/union/minus/intersect_varset (one-line functions over BitSet iterators) compute the set operation they name',
                   'A-clone: the derived Clone of DTree is a structural copy', A_TERM],
      replay={'order': 'order', 'dtree': 'dtree', '*': 'order'},
+     bounded_extra=['vtree'],
      explanation='first sentence of the property, for the orders VarOrder itself builds: VarOrder::new(order) for ANY permutation `order` yields mutually inverse position/label maps (wf) with '
                  'get(order[i]) == i; new_last (run-time extension) preserves wf, keeps every old position and appends the new label; get / var_at_level / lt / lte / first / first_essential / sort / above / below are proved against the maps.  '
                  'dtree helpers (unit dtree): init_vars establishes vars = vars(l) U vars(r) at every node and the clause variables at every leaf; gen_cutset establishes cutset = (vars(l) /\\ vars(r)) minus the ancestors\' cutsets at every node (leaf: remaining variables) and changes nothing else; balanced keeps exactly the leaves of its input trees, in order',
      not_covered=[
          'VarOrder::linear_order ((0..n).map(..).collect(): iterator chain; it only calls VarOrder::new, which is proved) [+ bounded check `order`]',
          'min-fill (petgraph) and FORCE (f64, sort_by, partial_cmp) order heuristics [bounded check `order` only: the result is a bijection]',
-         'DTree::from_cnf itself (iterator map/collect/partition around the proved helpers) [bounded check `dtree` only], cutwidth', 'VTree::from_dtree (cutset.iter().collect()) [bounded check `dtree` only], VTreeManager (in-order indices, lca via segment tree, prime test, variable count)',
+         'DTree::from_cnf itself (iterator map/collect/partition around the proved helpers) [bounded check `dtree` only], cutwidth', 'VTree::from_dtree (cutset.iter().collect()) [bounded check `dtree` only], VTreeManager [bounded check `vtree` only: dense labels, <= 6 leaves; it found the variable-count defect fixed in ad19bb4] (in-order indices, lca via segment tree, prime test, variable count)',
      ])
 
 prop('C05',
